@@ -12,6 +12,7 @@ R17d  save/restore agreement: the field sequence pushed by cmdStartScope equals 
       restored by cmdEndTagEndScope; same for pushProgram/popProgram
 R17e  progress: every path through every cmd* handler sets the program counter
 R17f  attributes read on a value narrowed by isinstance(v, C) exist in class C
+R17i  the TALES name `attrs` is bound to the current element's original attributes at every evaluation
 R17g  sibling keyword discriminators of one if/elif chain test the same position
 That expansion equals the TAL/TALES specification is not decided.
 """
@@ -52,6 +53,8 @@ def check(ctx, rep):
     rep.rule("R17e", "every path of every command handler sets the program counter", floor=12)
     rep.rule("R17f", "attributes read after isinstance narrowing exist in the narrowed class", floor=5)
     rep.rule("R17h", "repeat variables and locals are scoped by stack: each loop saves the repeat map and restores it when it ends", floor=1)
+    rep.rule("R17i", "`attrs` is the current element's original attributes at every evaluation: handlers pass self.originalAttributes, "
+             "Context.evaluate binds it before evaluating, nothing else binds it", floor=3)
     rep.rule("R17g", "keyword discriminators of one if/elif chain index the same position", floor=1)
     mod = prog.modules.get("simpletal.simpleTAL")
     tales = prog.modules.get("simpletal.simpleTALES")
@@ -334,6 +337,70 @@ def check(ctx, rep):
     from .c18 import context_symmetry
 
     context_symmetry(ctx, rep, "R17h", tales)
+
+    # ------------------------------------------------------------------ R17i
+    ctxcls = tales.classes.get("Context")
+    ev = ctxcls.methods.get("evaluate") if ctxcls else None
+    if ev is None:
+        rep.fail("R17i", "Context.evaluate", detail="TALES evaluation entry point not found")
+    else:
+        oparam = ev.params[2] if len(ev.params) > 2 else "originalAtts"
+        problems = set()
+        n_outside = 0
+        for p in Walker(prog, ctx.resolver).run(ev, ctxcls):
+            outside = None
+            for e in p.events:
+                if e.kind == "test" and e.extra is not None:
+                    t = norm(e.node)
+                    if t in (f"{oparam} is not None", f"{oparam} != None"):
+                        outside = bool(e.extra)
+                    elif t in (f"{oparam} is None", f"{oparam} == None"):
+                        outside = not bool(e.extra)
+            if outside is not True:
+                continue
+            n_outside += 1
+            bound = None
+            for i, e in enumerate(p.events):
+                if e.kind == "assign" and e.target == "self.globals['attrs']" and isinstance(e.node, ast.Assign) and norm(e.node.value) == oparam:
+                    bound = i
+                    break
+            first_eval = next((i for i, e in enumerate(p.events) if e.kind == "call" and isinstance(e.node.func, ast.Attribute)
+                               and dotted(e.node.func.value) == "self" and e.node.func.attr.startswith("evaluate")), None)
+            if bound is None:
+                problems.add("an evaluation requested by a template command does not bind `attrs` to that element's attributes "
+                             "(`attrs` keeps whatever element set it last, e.g. a child whose scope has already been closed)")
+            elif first_eval is not None and bound > first_eval:
+                problems.add("`attrs` is bound after the expression has been evaluated")
+        if not n_outside:
+            problems.add("no path distinguishes evaluations requested by template commands")
+        rep.add("R17i", f"{ev.qualname}: binds attrs before evaluating", not problems, ctx.where(ev), "; ".join(sorted(problems)), key="R17i|evaluate")
+        # every command handler hands over the attributes of the element it is working on
+        ti = mod.classes.get("TemplateInterpreter")
+        calls = []
+        for C in mod.classes.values():
+            if ti is None or not prog.is_subclass(C, ti):
+                continue
+            for m in C.methods.values():
+                for n in ast.walk(m.node):
+                    if isinstance(n, ast.Call) and isinstance(n.func, ast.Attribute) and n.func.attr == "evaluate" and norm(n.func.value) == "self.context":
+                        calls.append((m, n))
+        bad = [(m, n) for m, n in calls if not (len(n.args) >= 2 and norm(n.args[1]) == "self.originalAttributes")]
+        rep.add("R17i", f"{len(calls)} evaluations in command handlers pass self.originalAttributes", bool(calls) and not bad,
+                ctx.where(bad[0][0], bad[0][1]) if bad else ctx.where(ev),
+                f"`{norm(bad[0][1])[:60]}` in {bad[0][0].qualname} evaluates without the element's attributes" if bad else "", key="R17i|callers")
+        # nothing else binds the name
+        others = []
+        for m2 in list(tales.classes.get("Context").methods.values()) + [m3 for C in mod.classes.values() for m3 in C.methods.values()]:
+            if m2 is ev:
+                continue
+            for n in ast.walk(m2.node):
+                if isinstance(n, ast.Assign) and any(isinstance(t, ast.Subscript) and norm(t).endswith("globals['attrs']") for t in n.targets):
+                    others.append((m2, n))
+                if isinstance(n, ast.Call) and isinstance(n.func, ast.Attribute) and n.func.attr == "addGlobal" and n.args \
+                        and isinstance(n.args[0], ast.Constant) and n.args[0].value == "attrs":
+                    others.append((m2, n))
+        rep.add("R17i", "no other code binds the `attrs` global", not others, ctx.where(others[0][0], others[0][1]) if others else ctx.where(ev),
+                f"{others[0][0].qualname} binds `attrs` itself: {norm(others[0][1])[:50]}" if others else "", key="R17i|single-binder")
 
     # ------------------------------------------------------------------ R17g
     n_chain = 0
